@@ -61,6 +61,10 @@ func (s *sentinelIncr) Cutoff(ctx context.Context) (bool, error) {
 }
 
 func (s *sentinelIncr) Unwatch(_ context.Context) {
+	if s.watched == nil {
+		// already unwatched: nothing is linked any more, and unwatchNode would dereference nil
+		return
+	}
 	graph := s.n.createdIn.scopeGraph()
 	graph.unwatchNode(s, s.watched)
 	s.watched = nil
